@@ -194,8 +194,13 @@ fn key_of(bdd: &Bdd, with_memo: bool) -> Vec<u8> {
         k.push(nd.lo().value() as u8);
         k.push(nd.hi().value() as u8);
     }
+    // the unique table belongs to the state: an object whose table differs from the node vector has other futures
+    let d = bdd.verif_dump();
+    k.push(254);
+    for (nd, t) in &d.cache {
+        k.extend_from_slice(&[nd.var().value() as u8, nd.lo().value() as u8, nd.hi().value() as u8, t.value() as u8]);
+    }
     if with_memo {
-        let d = bdd.verif_dump();
         k.push(255);
         for ((i, t, e), r) in &d.ite_cache {
             k.extend_from_slice(&[i.value() as u8, t.value() as u8, e.value() as u8, r.value() as u8]);
@@ -225,6 +230,18 @@ pub fn check_state(bdd: &Bdd, vars: usize, fl: &Flags, out: &mut Vec<(String, St
     if fl.canonical {
         if let Err(e) = check_semantic_canonicity(&bdd.nodes, vars) {
             out.push(("store:same-function-two-handles".into(), e));
+        }
+        // the unique table must be exactly the inverse of the node vector, or a later operation creates a duplicate
+        let d = bdd.verif_dump();
+        if d.cache.len() != bdd.nodes.len() - 2 {
+            out.push(("store:unique-table".into(), format!("unique table has {} entries for {} inner nodes", d.cache.len(), bdd.nodes.len() - 2)));
+        } else {
+            for (nd, t) in &d.cache {
+                if t.value() >= bdd.nodes.len() || bdd.nodes[t.value()] != *nd {
+                    out.push(("store:unique-table".into(), format!("unique table maps {} to {} which holds another node", nd, t)));
+                    break;
+                }
+            }
         }
     }
     if fl.memo {
@@ -343,6 +360,12 @@ pub fn check_transition(
             if fl.canonical {
                 // same function => same handle: the result must be the unique handle of its function
                 if let (Some(r), Some(want)) = (res, expect_tt(op, before_tts, vars)) {
+                    if r.value() < tts.len() && tts[r.value()] != want {
+                        out.push((
+                            "op:handle-of-another-function".into(),
+                            format!("{} was given handle {}, which denotes {:#x}, although the formula denotes {:#x}: same handle for different functions", op_json(op), r, tts[r.value()], want),
+                        ));
+                    }
                     if r.value() < tts.len() {
                         if let Some(first) = tts.iter().position(|t| *t == want) {
                             if first != r.value() && tts[r.value()] == want {
@@ -423,6 +446,7 @@ pub fn explore_with(run: &Run, cfg: &Explore, parallel: bool) -> ExpStats {
         let fr = &frontier;
         let seen_ref = &seen;
         let expand = |w: &mut WorkerOut, si: u64| {
+            run.heartbeat();
                 if run.violations_so_far() > 300 {
                     return;
                 }
